@@ -58,9 +58,12 @@ type HarnessResult struct {
 	ParamsUsed   map[string]int
 	UnwindMax    int
 	CacheHits    int
+	StoppedOnViolations bool
 	CrossChecked, CrossUnknown, CrossDisagree, RangeExcluded int
 	Fns          map[string]int
 }
+
+const maxViolationsPerHarness = 3
 
 type workItem struct {
 	trail []int
@@ -249,6 +252,11 @@ func (g *Engine) Explore(harness string, params map[string]int, nworkers int, de
 			if time.Now().After(deadline) {
 				stop = true
 				res.TimedOut = true
+			}
+			if len(res.Violations) >= maxViolationsPerHarness && !stop {
+				// enough distinct counterexamples: stop exploring (the run fails anyway)
+				stop = true
+				res.StoppedOnViolations = true
 			}
 			cond.Broadcast()
 			mu.Unlock()
